@@ -1340,6 +1340,17 @@ func phiIsMin(ph *ssa.Phi) bool {
 			continue
 		}
 		x, y := stripConv(bin.X), stripConv(bin.Y)
+		// len(s) evaluated twice is one value
+		if sameLenCall(x, a) {
+			x = a
+		} else if sameLenCall(x, b) {
+			x = b
+		}
+		if sameLenCall(y, a) {
+			y = a
+		} else if sameLenCall(y, b) {
+			y = b
+		}
 		if !((x == a && y == b) || (x == b && y == a)) {
 			// clamp-to-remaining: if p + a > q { v = q - p } else { v = a }
 			if clampToRemaining(bin, a, b) {
@@ -1384,6 +1395,24 @@ func phiIsMin(ph *ssa.Phi) bool {
 		}
 	}
 	return false
+}
+
+// sameLenCall: both are len() of the same slice value.
+func sameLenCall(p, q ssa.Value) bool {
+	if p == q {
+		return false
+	}
+	cp, ok1 := p.(*ssa.Call)
+	cq, ok2 := q.(*ssa.Call)
+	if !ok1 || !ok2 {
+		return false
+	}
+	bp, ok1 := cp.Call.Value.(*ssa.Builtin)
+	bq, ok2 := cq.Call.Value.(*ssa.Builtin)
+	if !ok1 || !ok2 || bp.Name() != "len" || bq.Name() != "len" {
+		return false
+	}
+	return cp.Call.Args[0] == cq.Call.Args[0] || sameBase(cp.Call.Args[0], cq.Call.Args[0])
 }
 
 // checksumGuarded: every success return of fn is dominated by the equal edge of a comparison between a
@@ -1640,6 +1669,27 @@ func (b *boundsAn) lenAtLeast(sl ssa.Value, at *ssa.BasicBlock, depth int) int64
 		if x.High != nil {
 			if hc, ok := constInt(x.High); ok && loConst {
 				up(hc - lo) // the expression itself panics unless the operand is that long
+			} else if loConst {
+				if k := b.minConst(x.High, x.Block(), depth+1); k > lo {
+					up(k - lo) // s[lo:n] with n of proven minimum
+				}
+			} else if add, ok := stripConv(x.High).(*ssa.BinOp); ok && add.Op == token.ADD {
+				// s[i : i+n]: the window is n long
+				lov := stripConv(x.Low)
+				var n ssa.Value
+				switch {
+				case stripConv(add.X) == lov || sameLoad(stripConv(add.X), lov):
+					n = add.Y
+				case stripConv(add.Y) == lov || sameLoad(stripConv(add.Y), lov):
+					n = add.X
+				}
+				if n != nil {
+					if c, ok := constInt(n); ok {
+						up(c)
+					} else {
+						up(b.minConst(n, x.Block(), depth+1))
+					}
+				}
 			}
 		} else if loConst {
 			if arr, ok := deref(x.X.Type()).Underlying().(*types.Array); ok {
@@ -1689,6 +1739,11 @@ func (b *boundsAn) lenAtLeast(sl ssa.Value, at *ssa.BasicBlock, depth int) int64
 		if n > 0 && lo > 0 {
 			up(lo)
 		}
+		// the length travels alongside: every caller passes s[i:i+int(v)] (or s[:int(v)]) together with v as another
+		// argument, so inside the callee len(sl) equals that parameter and inherits what is known about it
+		if j := b.lenParam(x); j != nil {
+			up(b.minConst(j, at, depth+1))
+		}
 	case *ssa.UnOp:
 		// a local cell written once
 		if x.Op == token.MUL {
@@ -1700,6 +1755,69 @@ func (b *boundsAn) lenAtLeast(sl ssa.Value, at *ssa.BasicBlock, depth int) int64
 		}
 	}
 	return best
+}
+
+// lenParam: the parameter of sl's function that equals len(sl) at every in-scope call site, nil if none.
+func (b *boundsAn) lenParam(sl *ssa.Parameter) *ssa.Parameter {
+	pf := sl.Parent()
+	idx := -1
+	for i, q := range pf.Params {
+		if q == sl {
+			idx = i
+		}
+	}
+	node := b.w.CHA().Nodes[pf]
+	if node == nil || idx < 0 {
+		return nil
+	}
+	cand := -2
+	n := 0
+	for _, e := range node.In {
+		if e.Site == nil || !b.scope[e.Caller.Func] {
+			continue
+		}
+		cc := e.Site.Common()
+		if cc.IsInvoke() || idx >= len(cc.Args) {
+			return nil
+		}
+		n++
+		sx, ok := cc.Args[idx].(*ssa.Slice)
+		if !ok || sx.High == nil {
+			return nil
+		}
+		var ln ssa.Value
+		if sx.Low == nil {
+			ln = sx.High
+		} else if add, ok := stripConv(sx.High).(*ssa.BinOp); ok && add.Op == token.ADD {
+			lov := stripConv(sx.Low)
+			switch {
+			case stripConv(add.X) == lov || sameLoad(stripConv(add.X), lov):
+				ln = add.Y
+			case stripConv(add.Y) == lov || sameLoad(stripConv(add.Y), lov):
+				ln = add.X
+			}
+		}
+		if ln == nil {
+			return nil
+		}
+		found := -1
+		for j, a := range cc.Args {
+			if j == idx {
+				continue
+			}
+			if stripConv(a) == stripConv(ln) || sameLoad(stripConv(a), stripConv(ln)) {
+				found = j
+			}
+		}
+		if found < 0 || (cand != -2 && cand != found) {
+			return nil
+		}
+		cand = found
+	}
+	if n == 0 || cand < 0 || cand >= len(pf.Params) {
+		return nil
+	}
+	return pf.Params[cand]
 }
 
 // lenMultipleOf: a constant m > 1 such that len(sl) is always a multiple of m: sl is a parameter and every in-scope
